@@ -110,6 +110,14 @@ func getProfile(name string, seed int64) *Profile {
 		p.NumTable = "extremes"
 		p.Indexes = false
 		p.SortHeavy = true
+	case "fartimes": // times from 1970 to year 9999 in indexed, filtered and sorted fields
+		p.TimeTable = "far1970"
+		p.Colls = 1
+		p.SortHeavy = true
+		p.Invalid = 0.02
+		p.IdxPool = []string{"t", "t", "t", "x"}
+		p.TimeHeavy = true
+		p.W = weights(map[string]int{"FindAll": 24, "Derived": 8, "ForEach": 4, "DropCollection": 0, "Insert": 16})
 	case "floats":
 		p.NumTable = "floats"
 		p.TimeTable = "wide"
@@ -145,7 +153,8 @@ func generate(p *Profile, seed int64) ([]E, *Universe) {
 	case p.Name == "huge":
 		return g.HistoryHuge(), g.U
 	case p.Name == "io":
-		return g.HistoryIO(), g.U
+		// the handle is closed at the end: a leaked store transaction would make Close wait forever
+		return append(g.HistoryIO(), E{"op": "Close"}), g.U
 	case p.CloseOps || p.Name == "richreopen":
 		return g.HistoryReopen(), g.U
 	}
